@@ -10,13 +10,45 @@ Import ListNotations.
 (* a built-in type word is a TYPE_SPECIFIER token, any other word of a specifier is an identifier (a type name) *)
 Definition spec_wordb (w : ustr) : bool := ustr_in w (map cp type_specifier).
 Definition spec_tok (w : ustr) : tok := {| tk := if spec_wordb w then TYPE_SPECIFIER else ID; tv := w |}.
+(* a qualified name "a::b::c": its components, and the tokens it stands for *)
+Fixpoint split_colons_aux (cur : ustr) (s : ustr) : list ustr :=
+  match s with
+  | [] => [rev cur]
+  | c :: r =>
+      if (c =? 58)%N then
+        match r with
+        | c2 :: r2 => if (c2 =? 58)%N then rev cur :: split_colons_aux [] r2 else split_colons_aux (c :: cur) r
+        | [] => split_colons_aux (c :: cur) r
+        end
+      else split_colons_aux (c :: cur) r
+  end.
+Definition split_colons (s : ustr) : list ustr := split_colons_aux [] s.
+Definition id_tok (n : ustr) : tok := {| tk := ID; tv := n |}.
+Definition ns_tok : tok := {| tk := NAMESPACE; tv := [58; 58]%N |}.
+Definition path_toks (names : list ustr) : list tok :=
+  match names with
+  | [] => []
+  | n0 :: rest => id_tok n0 :: flat_map (fun n => [ns_tok; id_tok n]) rest
+  end.
+Definition type_toks (spec : list ustr) : list tok :=
+  match spec with
+  | [w] => if spec_wordb w then [spec_tok w] else path_toks (split_colons w)
+  | _ => map spec_tok spec
+  end.
+(* number of name components of the type (fuel the parser spends on it) *)
+Definition spec_len (spec : list ustr) : nat :=
+  match spec with
+  | [w] => if spec_wordb w then 1 else List.length (split_colons w)
+  | _ => List.length spec
+  end.
+
 Fixpoint join_toks (l : list (list tok)) : list tok :=
   match l with [] => [] | [x] => x | x :: r => x ++ tok_of COMMA "," :: join_toks r end.
 
 Fixpoint decl_toks (d : decl) : list tok :=
   let '(Decl spec _ c v _ dt params _ _ _ _ fconst) := d in
   (if c then [tok_of TYPE_QUALIFIER "const"] else []) ++ (if v then [tok_of TYPE_QUALIFIER "volatile"] else []) ++
-  map spec_tok spec ++
+  type_toks spec ++
   (match dt with Some x => dtor_toks x | None => [] end) ++
   match params with
   | None => []
@@ -44,13 +76,28 @@ Definition void_decl : decl := Decl [cp "void"] [] false false (cp "void") None 
 
 (* the type: built-in words resolving to a known typemap, or one unqualified name of a type in scope (not the
    enclosing class itself, which would make "Name (" a constructor) *)
+Fixpoint walk (ns : sym) (names : list ustr) : option sym :=
+  match names with
+  | [] => Some ns
+  | n :: r => match ns with
+              | Sym _ KScope _ members => match sym_lookup n members with Some ns2 => walk ns2 r | None => None end
+              | _ => None
+              end
+  end.
+Definition resolve (c : pctx) (names : list ustr) : option sym :=
+  match names with
+  | [] => None
+  | n0 :: rest => match sym_lookup n0 (scope c) with Some ns => walk ns rest | None => None end
+  end.
 Definition named_type (c : pctx) (spec : list ustr) : option (nat * ustr) :=
   match spec with
-  | [n] => if spec_wordb n then None else
-           match sym_lookup n (scope c) with
-           | Some (Sym id _ (TmName tm) _) => Some (id, tm)
-           | _ => None
-           end
+  | [w] => if spec_wordb w then None else
+           if ueqb (join_colons (split_colons w)) w then
+             match resolve c (split_colons w) with
+             | Some (Sym id _ (TmName tm) _) => Some (id, tm)
+             | _ => None
+             end
+           else None
   | _ => None
   end.
 Definition spec_okb (c : pctx) (spec : list ustr) (tm : ustr) : bool :=
@@ -82,7 +129,7 @@ Fixpoint in_fragment (c : pctx) (d : decl) : bool :=
 
 Fixpoint dsize (d : decl) : nat :=
   let '(Decl spec _ _ _ _ dt params _ _ _ _ _) := d in
-  4 + List.length spec + (match dt with Some x => depth x | None => 0 end) +
+  4 + spec_len spec + (match dt with Some x => depth x | None => 0 end) +
   match params with None => 0 | Some ps => 4 + list_sum (map (fun p => S (dsize p)) ps) end.
 
 (* what may follow a declaration: the end, a comma, a closing parenthesis or a semicolon *)
@@ -131,11 +178,22 @@ Proof.
 Qed.
 
 Definition head_toks (c v : bool) (spec : list ustr) : list tok :=
-  (if c then [tok_of TYPE_QUALIFIER "const"] else []) ++ (if v then [tok_of TYPE_QUALIFIER "volatile"] else []) ++ map spec_tok spec.
+  (if c then [tok_of TYPE_QUALIFIER "const"] else []) ++ (if v then [tok_of TYPE_QUALIFIER "volatile"] else []) ++ type_toks spec.
+
+Lemma type_toks_native spec : forallb spec_wordb spec = true -> type_toks spec = map spec_tok spec.
+Proof.
+  destruct spec as [|w [|w2 l]]; try reflexivity. cbn [forallb]. intros H. apply andb_true_iff in H. destruct H as [H _].
+  unfold type_toks. rewrite H. reflexivity.
+Qed.
+Lemma spec_len_native spec : forallb spec_wordb spec = true -> spec_len spec = List.length spec.
+Proof.
+  destruct spec as [|w [|w2 l]]; try reflexivity. cbn [forallb]. intros H. apply andb_true_iff in H. destruct H as [H _].
+  unfold spec_len. rewrite H. reflexivity.
+Qed.
 
 Lemma head_toks_spec c v spec : forallb spec_wordb spec = true -> forallb is_spec_tok (head_toks c v spec) = true.
 Proof.
-  intros Hw. unfold head_toks. rewrite !forallb_app.
+  intros Hw. unfold head_toks. rewrite (type_toks_native spec Hw), !forallb_app.
   assert (Hm : forallb is_spec_tok (map spec_tok spec) = true).
   { induction spec as [|w ws IH]; [reflexivity|]. cbn [forallb] in Hw. apply andb_true_iff in Hw. destruct Hw as [Hw Hws].
     cbn [map forallb]. rewrite (IH Hws). unfold is_spec_tok, spec_tok. rewrite Hw. reflexivity. }
@@ -147,12 +205,19 @@ Lemma head_toks_fold c v spec : forallb spec_wordb spec = true ->
   {| ss_spec := spec; ss_storage := []; ss_const := c; ss_volatile := v; ss_tm := None; ss_targs := [];
      ss_ctor := false; ss_dtor := None |}.
 Proof.
-  intros Hw. unfold head_toks. rewrite !fold_left_app, fold_spec_words_only by exact Hw.
+  intros Hw. unfold head_toks. rewrite (type_toks_native spec Hw), !fold_left_app, fold_spec_words_only by exact Hw.
   destruct c, v; reflexivity.
 Qed.
 
-Lemma head_toks_length c v spec : List.length (head_toks c v spec) <= 2 + List.length spec.
-Proof. unfold head_toks. rewrite !app_length, map_length. destruct c, v; cbn [List.length]; lia. Qed.
+Lemma head_toks_length c v spec : forallb spec_wordb spec = true -> List.length (head_toks c v spec) <= 2 + List.length spec.
+Proof. intros Hw. unfold head_toks. rewrite (type_toks_native spec Hw), !app_length, map_length. destruct c, v; cbn [List.length]; lia. Qed.
+
+Lemma split_aux_nonempty : forall s cur, exists x l, split_colons_aux cur s = x :: l.
+Proof.
+  induction s as [|c r IH]; intros cur; cbn [split_colons_aux]; [eauto|].
+  destruct (c =? 58)%N; [|apply IH]. destruct r as [|c2 r2]; [cbn [split_colons_aux]; eauto|].
+  destruct (c2 =? 58)%N; [eauto | apply IH].
+Qed.
 
 Definition starts_decl (t : tok) : bool :=
   match tk t with TYPE_QUALIFIER | TYPE_SPECIFIER | ID => true | _ => false end.
@@ -162,8 +227,14 @@ Lemma head_first c v spec : spec <> [] ->
 Proof.
   intros Hs. unfold head_toks. destruct c; [eexists; eexists; split; [reflexivity | reflexivity]|].
   destruct v; [eexists; eexists; split; [reflexivity | reflexivity]|].
-  destruct spec as [|w ws]; [contradiction|]. eexists; eexists; split; [reflexivity|].
-  unfold starts_decl, spec_tok. cbn [tk]. destruct (spec_wordb w); reflexivity.
+  destruct spec as [|w ws]; [contradiction|]. unfold type_toks.
+  destruct ws as [|w2 ws'].
+  - destruct (spec_wordb w) eqn:Ew.
+    + eexists; eexists; split; [reflexivity|]. unfold starts_decl, spec_tok. rewrite Ew. reflexivity.
+    + unfold split_colons. destruct (split_aux_nonempty w []) as (x & l & E). rewrite E. cbn [path_toks app].
+      eexists; eexists; split; [reflexivity | reflexivity].
+  - cbn [map app]. eexists; eexists; split; [reflexivity|].
+    unfold starts_decl, spec_tok. cbn [tk]. destruct (spec_wordb w); reflexivity.
 Qed.
 
 (* ---- consequences of [ends_decl] ---- *)
@@ -240,7 +311,7 @@ Proof.
   assert (Hp : peek TILDE (head_toks cst vol spec ++ R) = false).
   { rewrite Eh. cbn [app peek]. unfold starts_decl in Ht. destruct (tk t); try discriminate; reflexivity. }
   rewrite Hp.
-  rewrite specifier_run_then_name; [| apply head_toks_spec; exact Hw | exact HR | pose proof (head_toks_length cst vol spec); lia].
+  rewrite specifier_run_then_name; [| apply head_toks_spec; exact Hw | exact HR | pose proof (head_toks_length cst vol spec Hw); lia].
   change (fold_left spec_step (head_toks cst vol spec) _) with (fold_left spec_step (head_toks cst vol spec) s_init).
   rewrite head_toks_fold by exact Hw. cbn [bind fst ss_spec]. destruct spec; [contradiction|]. reflexivity.
 Qed.
@@ -253,16 +324,33 @@ Proof.
   destruct (tk t); intros H; try contradiction; repeat split; reflexivity.
 Qed.
 
-Lemma p_spec_named f c s n id k tm ms R :
-  sym_lookup n (scope c) = Some (Sym id k (TmName tm) ms) -> cur_is_class c && Nat.eqb (cur_id c) id = false -> after_spec R ->
-  p_specifier (S (S f)) c false s ({| tk := ID; tv := n |} :: R) =
-  Ok ({| ss_spec := ss_spec s ++ [n]; ss_storage := ss_storage s; ss_const := ss_const s; ss_volatile := ss_volatile s;
+Lemma p_nested_path : forall rest fuel ns acc R ns',
+  walk ns rest = Some ns' -> List.length rest < fuel -> peek NAMESPACE R = false ->
+  p_nested fuel ns acc (flat_map (fun n => [ns_tok; id_tok n]) rest ++ R) = Ok (ns', acc ++ rest, R).
+Proof.
+  induction rest as [|n rest IH]; intros fuel ns acc R ns' Hw Hf HR.
+  - cbn [walk] in Hw. inversion Hw; subst ns'. cbn [flat_map app]. destruct fuel as [|f]; [cbn in Hf; lia|].
+    cbn [p_nested]. rewrite HR, app_nil_r. reflexivity.
+  - destruct fuel as [|f]; [cbn in Hf; lia|]. cbn [List.length] in Hf.
+    cbn [flat_map app p_nested peek ns_tok id_tok tk tv kind_eqb tl mustbe bind fst snd].
+    cbn [walk] in Hw. destruct ns as [nid [| |] ntm members]; try discriminate.
+    destruct (sym_lookup n members) as [ns2|] eqn:El; [|discriminate].
+    rewrite (IH f ns2 (acc ++ [n]) R ns' Hw ltac:(lia) HR). rewrite <- app_assoc. reflexivity.
+Qed.
+
+Lemma p_spec_named F c s n0 rest ns0 id k tm ms R :
+  sym_lookup n0 (scope c) = Some ns0 -> walk ns0 rest = Some (Sym id k (TmName tm) ms) ->
+  cur_is_class c && Nat.eqb (cur_id c) id = false -> after_spec R -> List.length rest < F ->
+  p_specifier (S F) c false s (path_toks (n0 :: rest) ++ R) =
+  Ok ({| ss_spec := ss_spec s ++ [join_colons (n0 :: rest)]; ss_storage := ss_storage s; ss_const := ss_const s; ss_volatile := ss_volatile s;
          ss_tm := Some tm; ss_targs := ss_targs s; ss_ctor := false; ss_dtor := ss_dtor s |}, R).
 Proof.
-  intros Hl Hc HR. destruct (after_spec_peeks c s f R HR) as (Hns & Hlt & _).
-  cbn [p_specifier tk tv]. rewrite Hl. cbn [p_nested]. rewrite Hns. cbn [bind p_targs]. rewrite Hlt. cbn [bind].
-  rewrite Hc. cbn [andb join_colons ss_spec ss_storage ss_const ss_volatile ss_tm ss_targs ss_ctor ss_dtor].
-  destruct (after_spec_peeks c {| ss_spec := ss_spec s ++ [n]; ss_storage := ss_storage s; ss_const := ss_const s; ss_volatile := ss_volatile s;
+  intros Hl Hw Hc HR HF. destruct F as [|f]; [lia|].
+  destruct (after_spec_peeks c s f R HR) as (Hns & Hlt & _).
+  cbn [path_toks app p_specifier id_tok tk tv]. rewrite Hl.
+  rewrite (p_nested_path rest (S f) ns0 [n0] R _ Hw HF Hns). cbn [bind app p_targs]. rewrite Hlt. cbn [bind].
+  rewrite Hc. cbn [andb ss_spec ss_storage ss_const ss_volatile ss_tm ss_targs ss_ctor ss_dtor].
+  destruct (after_spec_peeks c {| ss_spec := ss_spec s ++ [join_colons (n0 :: rest)]; ss_storage := ss_storage s; ss_const := ss_const s; ss_volatile := ss_volatile s;
          ss_tm := Some tm; ss_targs := ss_targs s; ss_ctor := false; ss_dtor := ss_dtor s |} f R HR) as (_ & _ & Hp).
   exact Hp.
 Qed.
@@ -336,7 +424,7 @@ Proof. reflexivity. Qed.
 
 (* the specifier phase, for both kinds of type *)
 Lemma spec_phase f c cst vol spec tm R : spec <> [] -> spec_okb c spec tm = true -> ends_spec_in c R -> after_spec R ->
-  3 + List.length spec < f ->
+  3 + spec_len spec < f ->
   exists otm, p_decl_spec f c (head_toks cst vol spec ++ R) = Ok (s_of cst vol spec otm, R) /\
               get_canonical c (s_of cst vol spec otm) = Ok tm.
 Proof.
@@ -344,24 +432,32 @@ Proof.
   - (* a type name *)
     apply andb_true_iff in Hok. destruct Hok as [Htm Hcls]. apply Proof.Splicer.ueqb_eq in Htm. subst tm'.
     apply negb_true_iff in Hcls. unfold named_type in En.
-    destruct spec as [|n [|n2 l]]; try discriminate. destruct (spec_wordb n) eqn:Ew; [discriminate|].
-    destruct (sym_lookup n (scope c)) as [[id0 k0 [| |tm0] ms0]|] eqn:El; try discriminate. inversion En; subst id0 tm0.
+    destruct spec as [|w [|w2 l]]; try discriminate. destruct (spec_wordb w) eqn:Ew; [discriminate|].
+    destruct (ueqb (join_colons (split_colons w)) w) eqn:Ej; [|discriminate]. apply Proof.Splicer.ueqb_eq in Ej.
+    unfold resolve in En. destruct (split_colons w) as [|n0 rest] eqn:Esp; [discriminate|].
+    destruct (sym_lookup n0 (scope c)) as [ns0|] eqn:El; [|discriminate].
+    destruct (walk ns0 rest) as [[id0 k0 [| |tm0] ms0]|] eqn:Ewk; try discriminate. inversion En; subst id0 tm0.
     exists (Some tm). split; [|reflexivity].
-    do 5 (destruct f as [|f]; [cbn [List.length] in Hf; lia|]).
-    cbn [p_decl_spec].
-    destruct (head_first cst vol [n] Hs) as (t & r & Eh & Ht).
-    assert (Hp : peek TILDE (head_toks cst vol [n] ++ R) = false).
+    unfold spec_len in Hf. rewrite Ew, Esp in Hf. cbn [List.length] in Hf.
+    destruct f as [|f1]; [lia|]. cbn [p_decl_spec].
+    destruct (head_first cst vol [w] Hs) as (t & r & Eh & Ht).
+    assert (Hp : peek TILDE (head_toks cst vol [w] ++ R) = false).
     { rewrite Eh. cbn [app peek]. unfold starts_decl in Ht. destruct (tk t); try discriminate; reflexivity. }
     rewrite Hp. clear Hp Eh Ht t r.
-    unfold head_toks. cbn [map]. unfold spec_tok at 1. rewrite Ew.
-    destruct cst, vol; cbn [app];
+    unfold head_toks, type_toks. rewrite Ew, Esp.
+    assert (Hres : forall F s0, List.length rest < F ->
+              p_specifier (S F) c false s0 (path_toks (n0 :: rest) ++ R) =
+              Ok ({| ss_spec := ss_spec s0 ++ [w]; ss_storage := ss_storage s0; ss_const := ss_const s0; ss_volatile := ss_volatile s0;
+                     ss_tm := Some tm; ss_targs := ss_targs s0; ss_ctor := false; ss_dtor := ss_dtor s0 |}, R)).
+    { intros F s0 HF. rewrite (p_spec_named F c s0 n0 rest ns0 id k0 tm ms0 R El Ewk Hcls HA HF). rewrite Ej. reflexivity. }
+    destruct f1 as [|f2]; [lia|]. destruct f2 as [|f3]; [lia|]. destruct f3 as [|f4]; [lia|].
+    destruct cst, vol; rewrite <- ?app_assoc; cbn [app];
       rewrite ?p_spec_const, ?p_spec_volatile;
-      cbn [ss_spec ss_storage ss_const ss_volatile ss_tm ss_targs ss_ctor ss_dtor];
-      (erewrite p_spec_named; [| exact El | exact Hcls | exact HA]); reflexivity.
+      (rewrite Hres by lia); reflexivity.
   - (* built-in words *)
     apply andb_true_iff in Hok. destruct Hok as [Hok Hkn]. apply andb_true_iff in Hok. destruct Hok as [Hw Htm].
     apply Proof.Splicer.ueqb_eq in Htm. exists None. split.
-    + apply decl_spec_head; [exact Hs | exact Hw | exact HR | lia].
+    + rewrite (spec_len_native spec Hw) in Hf. apply decl_spec_head; [exact Hs | exact Hw | exact HR | lia].
     + unfold get_canonical, s_of. cbn [ss_tm ss_spec]. rewrite <- Htm, Hkn. reflexivity.
 Qed.
 
